@@ -305,6 +305,9 @@ def _on_change_dispatcher(
     state_change: ServiceStateChange,
 ) -> None:
     """Dispatch a service state change to a listener."""
+    if state_change is ServiceStateChange.Updated and not hasattr(listener, 'update_service'):
+        # update_service is still optional, see the warning below
+        return
     getattr(listener, _ON_CHANGE_DISPATCH[state_change])(zeroconf, service_type, name)
 
 
